@@ -31,6 +31,19 @@ HOW = {
     "C14-readbasis-symtab-slot": "C14 quick (after deleted-column patterns: symbol-table slot differs from the column index)",
     "C20-clear-drops-handler": "C20 quick (after the second-session battery: QSexactClear + QSexactStart with the handler still installed)",
     "C20-readbasis-perror": "C20 quick: bytes on fd 2 for a missing basis file",
+    "C03-ratio-pII-no-kmin": "C03 quick: mpf ratio-test battery (RATIO_FAILED although a row blocks; theorem ratio_pII_never_failed) and corpus LP F12 ends UNSOLVED",
+    "C09-mps-obj-structmap-index": "C09 quick (after building a third of the problems rows first, columns through QSadd_col: structmap is not the identity)",
+    "C09-int-lower-only-becomes-binary": "C10 quick (independent generator: integer column with a lower bound only); not seen by C09's round trips, whose reference object comes from the same reader",
+    "C06-symtab-delete-relink-head": "C06 quick: symtab.c vs Qsx.Symtab (chain of the moved entry differs after a delete)",
+    "C06-addcol-stale-intmarker": "C16 quick (after adding the expectation that integrality marks move with their columns and new columns are continuous)",
+    "C16-copy-objname-collision": "C16 quick (after rows called obj / OBJ / rhs in the generated histories)",
+    "C16-mpf-objlim-via-double": "C16 quick: mpf copy parameters through convOK",
+    "C19-plainwrite-format-string": "C19 quick and C08 quick (after names containing %d, %s, %% in the name pools)",
+    "C19-setparam-pricing-range": "C19 quick: option sweep -d 9",
+    "C12-pfeasible-upper-guard-lower": "C12 quick: supplied-basis enumeration vs verdict model",
+    "C12-dfeasible-free-positive-dropped": "C12 quick: supplied-basis enumeration vs verdict model",
+    "C13-btranl3-zero-shortcut": "C13 quick (after the bump family: 30-120 rows, identity plus a small integer block, every row of the inverse)",
+    "C13-move-pivot-row-backpointer": "C13 quick (after the sparse-update family: 28-60 rows, forty column replacements without refactorization, rows of the inverse after each)",
 }
 
 
